@@ -405,6 +405,22 @@ theorem open_reports_with_cancels_register (m : Orders) (c : Nat) (q p : Rat) (e
       rw [hwrap] at this
       exact this
 
+/-- A failed cancel restores the LAST EXCHANGE-CONFIRMED open state (C01's clause, over histories):
+after any interleaving of open reports and (repeated) cancel requests, if the order is being
+cancelled and the cancel then fails, the order is `Open` again with exactly the details of the
+`<=` register over all reports delivered so far — the greatest-timestamp report, latest among ties. -/
+theorem cancel_err_restores_latest_confirmed (m : Orders) (c : Nat) (q p : Rat) (evs : List OrdEv)
+    (hrem : ∀ o ∈ reportsOf evs, remZero q o = false) (hc : Confirmed (stateOf m c)) (o : Open)
+    (hst : stateOf (run m (evs.map (OrdEv.toOp c q p))) c = some (.cancelInFlight (some o))) :
+    stateOf (step (run m (evs.map (OrdEv.toOp c q p))) (.cancelResp c false)) c = some (.opn o) ∧
+    some o = (deliver false ((metaOf (stateOf m c)).map toMsg) ((reportsOf evs).map toMsg)).map (·.2) := by
+  refine ⟨?_, ?_⟩
+  · rw [step_refines _ _ _ rfl]
+    simp [Lifecycle.stepOp, Op.input, hst, Lifecycle.step]
+  · have := (open_reports_with_cancels_register m c q p evs hrem hc).1
+    rw [hst] at this
+    simpa [metaOf, Active.openMeta] using this
+
 /-! Non-vacuity -/
 example : deliver false none [((3 : Int), (1 : Nat)), (5, 2), (4, 3), (5, 4), (1, 5)] = some (5, 4) := by decide
 example : deliver true none [((3 : Int), (1 : Nat)), (5, 2), (4, 3), (5, 4), (1, 5)] = some (5, 2) := by decide
